@@ -23,6 +23,9 @@ SCENARIOS = [
     ('sdisc-vs-reconnect', True, ['0'], ['sdisc']),
     ('sdisc-vs-other-ns', True, ['0/x,', '2/x,3["ev",1]'], ['sdisc']),
     ('loss-vs-other-ns-connect', True, ['0/x,'], ['loss']),
+    ('emitcb-vs-loss', True, [], ['emitcb', 'loss']),
+    ('binary-header-vs-loss', True,
+     ['51-["ev",{"_placeholder":true,"num":0}]'], ['loss']),
 ]
 OUTCOMES = ['accept', 'false']
 
@@ -97,6 +100,8 @@ def scenario_for(sc, always_connect, outcome):
                     real_eio.sockets.pop(sock.sid, None)
                 elif kind == 'sdisc':
                     sio.disconnect(sid0)
+                elif kind == 'emitcb':
+                    sio.emit('q', 3, to=sid0, callback=lambda *a: None)
             except Exception:
                 pass
         sched.spawn(client, name='client')
